@@ -19,6 +19,17 @@ It must consume the bytes exactly and yield the original value (sets / dicts as 
 
 Workload: as C32 (vf/gen_hail_types.py) with a non-missing top level, plus n-d arrays in C, Fortran, transposed and strided
 memory layouts and with zero-length dimensions.
+
+Phase 'keyorder' (struct field PLACEMENT): a struct value is any Mapping with the type's key set -- hl.literal(x, dtype) / the
+front end's _typecheck look fields up by name -- while the engine reads an EBaseStruct whose fields are in the TYPE's order
+(EType.scala:401-410).  The main phase only ever builds struct values in type order, so "which field does this bit / this
+payload belong to" is never asked.  This phase generates a struct of 2..17 fields (siblings frequently share a type, so a
+misplacement is a silent swap rather than a crash) at the top level or inside an array / set / dict key / dict value / tuple /
+interval / outer struct, generates a value, and rebuilds EVERY struct node of the value (top level and nested) as an
+hl.Struct / dict / OrderedDict / frozendict whose key order is a non-identity permutation of the type's field order (missing
+fields included, so missing bits have to move with their field).  Oracles A and B are unchanged: both are name-directed (veq /
+neutral_of read v[field]), so they demand exactly "field f of the value ends up in slot f of the type".  A failure that
+disappears when the same value is presented in type order is keyed '<oracle>/struct-key-order-<how>'.
 """
 import struct
 
@@ -27,7 +38,9 @@ LEVEL = 'exploration'
 RULE = (
     'seeded random (type, value) pairs: type from vf.gen_hail_types.gen_type(mode=value, depth 0..4), non-missing value from gen_value '
     '(type-directed; p(missing)=0.12 at every nullable position below the top; containers of 0/1/7/8/9/16/17 elements; structs/tuples of 8/9/17 fields); '
-    'distinct by (type skeleton without names, encoded bytes); non-trivial when the type is compound.'
+    'distinct by (type skeleton without names, encoded bytes); non-trivial when the type is compound.  Phase keyorder: a struct of 2..17 fields '
+    '(p=0.45 per field of copying an earlier sibling\'s type) in one of 9 contexts, value from gen_value, then every struct node with >= 2 fields re-keyed '
+    '(p=0.9) in a non-identity permutation of the type\'s field order as Struct/dict/OrderedDict/frozendict; distinct by (skeleton, bytes, permutations).'
 )
 ASSUMPTIONS = [
     'engine half rests on the independent decoder in this file, written from EType.fromPythonTypeEncoding (EType.scala:370-413), EArray._buildDecoder '
@@ -46,6 +59,8 @@ FLOORS = {
     'saw[interval]': 1000, 'saw[call]': 1000, 'saw[locus]': 1000, 'saw[ndarray_C]': 100, 'saw[ndarray_F]': 100, 'saw[ndarray_T]': 100, 'saw[ndarray_strided]': 100,
     'saw[ndarray_zero_dim]': 50, 'saw[set_with_missing]': 200, 'saw[dict_missing_value]': 200, 'saw[dict_missing_key]': 50, 'saw[empty]': 1000,
     'etype[EArray-required]': 500, 'etype[EArray]': 2000, 'etype[EBaseStruct]': 5000, 'etype[ENDArrayColumnMajor]': 300,
+    # phase keyorder (filled in from the minimum over quick seeds 0..4, halved)
+
 }
 
 
@@ -237,8 +252,169 @@ def neq(want, got):
 
 
 # =================================================================================================
+# Phase 'keyorder': struct values whose key order is not the type's field order
+# =================================================================================================
+KO_CONTEXTS = ('top', 'array', 'set', 'dict_key', 'dict_value', 'tuple', 'interval', 'struct_field', 'array_of_outer')
+
+
+def gen_keyorder_type(rng, G):
+    """-> (type, context): a struct of >= 2 fields, siblings often of one type, placed in a random context"""
+    import hail.expr.types as T
+
+    ctxname = rng.choice(KO_CONTEXTS)
+    hashable = ctxname in ('set', 'dict_key', 'interval')
+    n = rng.choice([2, 2, 2, 3, 3, 4, 5, 8, 9, 9, 17])
+    d = rng.choice([0, 0, 1, 1, 2]) if n < 8 else rng.choice([0, 0, 1])
+    names, _ = G.gen_field_names(rng, n)
+    types = []
+    for _ in range(n):
+        if types and rng.random() < 0.45:
+            types.append(rng.choice(types))
+        else:
+            types.append(G.gen_type(rng, d, 'value', hashable=hashable))
+    core = T.tstruct(**dict(zip(names, types)))
+
+    def other(**kw):
+        return G.gen_type(rng, rng.choice([0, 1, 2]), 'value', **kw)
+
+    if ctxname == 'top':
+        return core, ctxname
+    if ctxname == 'array':
+        return T.tarray(core), ctxname
+    if ctxname == 'set':
+        return T.tset(core), ctxname
+    if ctxname == 'dict_key':
+        return T.tdict(core, other()), ctxname
+    if ctxname == 'dict_value':
+        return T.tdict(other(hashable=True), core), ctxname
+    if ctxname == 'tuple':
+        parts = [other() for _ in range(rng.choice([0, 1, 2]))]
+        parts.insert(rng.randrange(len(parts) + 1), core)
+        return T.ttuple(*parts), ctxname
+    if ctxname == 'interval':
+        return T.tinterval(core), ctxname
+    onames, _ = G.gen_field_names(rng, rng.choice([2, 3, 9]))
+    slot = rng.randrange(len(onames))
+    outer = T.tstruct(**{nm: (core if j == slot else (core if rng.random() < 0.3 else other())) for j, nm in enumerate(onames)})
+    return (outer if ctxname == 'struct_field' else T.tarray(outer)), ctxname
+
+
+def stable_repr(t, v):
+    """repr that does not depend on set iteration order (hash order; NaN and Locus hashes are address-based)"""
+    import hail.expr.types as T
+
+    if v is None:
+        return 'NA'
+    if isinstance(t, T.tset):
+        return '{' + ','.join(sorted(stable_repr(t.element_type, x) for x in v)) + '}'
+    if isinstance(t, T.tarray):
+        return '[' + ','.join(stable_repr(t.element_type, x) for x in v) + ']'
+    if isinstance(t, T.tdict):
+        return '{' + ','.join(stable_repr(t.key_type, k) + ':' + stable_repr(t.value_type, x) for k, x in v.items()) + '}'
+    if isinstance(t, T.ttuple):
+        return '(' + ','.join(stable_repr(tt, x) for tt, x in zip(t.types, v)) + ')'
+    if isinstance(t, T.tstruct):
+        return '<' + ','.join(stable_repr(tt, v[f]) for f, tt in t.items()) + '>'
+    if isinstance(t, T.tinterval):
+        return f'iv({stable_repr(t.point_type, v.start)},{stable_repr(t.point_type, v.end)},{v.includes_start},{v.includes_end})'
+    return repr(v)
+
+
+def rekey(rng, G, t, v, canonical=False, hashable=False, depth=0, note=None, sig=None):
+    """Rebuild `v` (of type `t`) with every struct node presented as a Mapping whose key order is a non-identity permutation of
+    the type's field order (`canonical=True`: in the type's order, same representations otherwise irrelevant).  Everything else
+    (element order, missingness, leaf objects) is kept."""
+    from collections import OrderedDict
+
+    import hail.expr.types as T
+    from hail.utils import Interval, Struct
+    from hailtop.frozendict import frozendict
+    from hailtop.hail_frozenlist import frozenlist
+
+    def sub(tt, x, **kw):
+        return rekey(rng, G, tt, x, canonical=canonical, depth=depth + 1, note=note, sig=sig, **{'hashable': hashable, **kw})
+
+    if v is None:
+        return None
+    if isinstance(t, T.tarray):
+        xs = [sub(t.element_type, x) for x in v]
+        return frozenlist(xs) if hashable else xs
+    if isinstance(t, T.tset):
+        # a set iterates in hash order and some hashes are address-based (NaN, Locus via its reference genome): draw in repr order
+        xs = [sub(t.element_type, x, hashable=True) for x in sorted(v, key=lambda x: stable_repr(t.element_type, x))]
+        return frozenset(xs) if hashable else set(xs)
+    if isinstance(t, T.tdict):
+        items = list(v.items())
+        done = {}
+        for j in sorted(range(len(items)), key=lambda j: stable_repr(t.key_type, items[j][0]) + stable_repr(t.value_type, items[j][1])):
+            done[j] = (sub(t.key_type, items[j][0], hashable=True), sub(t.value_type, items[j][1]))
+        d = {done[j][0]: done[j][1] for j in range(len(items))}  # the value's own entry order is kept
+        return frozendict(d) if hashable else d
+    if isinstance(t, T.ttuple):
+        return tuple(sub(tt, x) for tt, x in zip(t.types, v))
+    if isinstance(t, T.tinterval):
+        return Interval(sub(t.point_type, v.start, hashable=True), sub(t.point_type, v.end, hashable=True), v.includes_start, v.includes_end,
+                        point_type=t.point_type)
+    if not isinstance(t, T.tstruct):
+        return v
+    fields = list(t.fields)
+    vals = {f: sub(tt, v[f]) for f, tt in t.items()}
+    order = list(fields)
+    if not canonical and len(fields) >= 2 and rng.random() < 0.9:
+        how = rng.choice(['shuffle', 'shuffle', 'reverse', 'rotate', 'swap2'])
+        if how == 'shuffle':
+            rng.shuffle(order)
+        elif how == 'reverse':
+            order.reverse()
+        elif how == 'rotate':
+            k = rng.randrange(1, len(order))
+            order = order[k:] + order[:k]
+        else:
+            a, b = rng.sample(range(len(order)), 2)
+            order[a], order[b] = order[b], order[a]
+        if order == fields:
+            order = order[1:] + order[:1]
+        if note is not None:
+            note('structs_rekeyed')
+            note('rekeyed_nested' if depth > 0 else 'rekeyed_top')
+            same = diff = False
+            for f, g in zip(fields, order):  # slot of f is occupied, positionally, by g
+                if f == g:
+                    continue
+                if t[f] == t[g]:
+                    # a positional reader would swap silently; visible when the two values are not equal
+                    if not G.veq(t[f], v[f], v[g], strict=False, float_bits=True):
+                        same = True
+                else:
+                    diff = True
+            if same:
+                note('same_typed_fields_displaced')
+            if diff:
+                note('different_typed_fields_displaced')
+            if [v[f] is None for f in fields] != [v[g] is None for g in order]:
+                note('missing_bit_displaced')
+            if len(fields) > 8 and any((fields.index(g) >> 3) != (j >> 3) for j, g in enumerate(order)):
+                note('crosses_missing_byte')
+        if sig is not None:
+            sig.append(tuple(fields.index(g) for g in order))
+    reps = ['Struct', 'Struct', 'frozendict'] if hashable else ['Struct', 'Struct', 'dict', 'dict', 'OrderedDict', 'frozendict']
+    rep = rng.choice(reps)
+    ordered = {f: vals[f] for f in order}
+    if note is not None and order != fields:
+        note('as_' + rep)
+    if rep == 'Struct':
+        return Struct(**ordered)
+    if rep == 'dict':
+        return ordered
+    if rep == 'OrderedDict':
+        return OrderedDict(ordered)
+    return frozendict(ordered)
+
+
+# =================================================================================================
 def run(ctx):
     import os
+    import random
 
     import hail.expr.types as T
 
@@ -282,6 +458,14 @@ def run(ctx):
         except Exception:
             return False
 
+    def accepts(t, v):
+        try:
+            t.typecheck(v)
+            return True
+        except Exception as e:
+            ctx.seen('keyorder_typecheck_rejections', f'{type(e).__name__}: {A(str(e))[:80]}')
+            return False
+
     def kind_key(prefix, t, v, how):
         if isinstance(t, T.tstruct) and 'self' in t.fields and prefix == 'roundtrip':
             return 'struct/field-named-self'
@@ -295,24 +479,32 @@ def run(ctx):
                 k += '-strided'
         return f'{prefix}/{k}-{how}'
 
-    N = ctx.pick(7_000, 25_000)
-    stats = {}
-    for i, rng in ctx.cases(N, 'main'):
-        t = G.gen_type(rng, depth=rng.choice([0, 1, 2, 2, 3, 3, 4]), mode='value')
-        v = G.gen_value(rng, t, missing_ok=False, stats=stats)
-        w = {'type': str(t), 'type_ascii': A(str(t)), 'value': G.describe(t, v)}
+    def examine(i, t, v, w, counts, pre, key_extra=(), keyorder=False):
+        """both oracles on one (type, value).  `pre`: counter-name prefix ('' in the main phase).  In the keyorder phase a failure
+        that the same value presented in the type's field order does not show is keyed '<oracle>/struct-key-order-<how>'."""
+
+        def key_of(prefix, nt, nv, how, ok):
+            if keyorder:
+                try:
+                    cv = rekey(random.Random(0), G, t, v, canonical=True)
+                    if ok(t, cv):
+                        return f'{prefix}/struct-key-order-{how}'
+                except Exception:
+                    pass
+            return kind_key(prefix, nt, nv, how)
+
         try:
             b = t._to_encoding(v)
         except Exception as e:
             nt, nv, path = G.localise(t, v, lambda tt, vv: _encodes(tt, vv))
-            ctx.violation(kind_key('encode', nt, nv, 'raises'), f'_to_encoding raised {type(e).__name__}: {A(str(e))[:150]} for a {A(str(nt))[:120]} value {A(str(G.describe(nt, nv)))[:200]}',
+            ctx.violation(key_of('encode', nt, nv, 'raises', _encodes), f'_to_encoding raised {type(e).__name__}: {A(str(e))[:150]} for a {A(str(nt))[:120]} value {A(str(G.describe(nt, nv)))[:200]}',
                           dict(w, smallest_failing_type=str(nt), smallest_failing_value=G.describe(nt, nv), path=[str(p) for p in path]))
-            ctx.case(key=(G.type_shape(t), 'raise', i), nontrivial=True)
-            continue
+            ctx.case(key=(G.type_shape(t), 'raise', i) + tuple(key_extra), nontrivial=True)
+            return
         w['bytes'] = b
-        ctx.count('bytes_decoded', len(b))
+        ctx.count(pre + 'bytes_decoded', len(b))
         # ---- Oracle A
-        ctx.count('python_roundtrips')
+        ctx.count(pre + 'python_roundtrips')
         try:
             v2 = t._from_encoding(b)
             good = G.veq(t, v, v2, strict=True, float_bits=True)
@@ -325,12 +517,12 @@ def run(ctx):
                 how, tail = 'differs', f': {A(repr(nt._from_encoding(nt._to_encoding(nv))))[:200]}'
             except Exception as e:
                 how, tail = 'raises', f' ({type(e).__name__}: {A(str(e))[:120]})'
-            ctx.violation(kind_key('roundtrip', nt, nv, how),
+            ctx.violation(key_of('roundtrip', nt, nv, how, ok_a),
                           f'decode(encode(v)) {how} for a {A(str(nt))[:120]} value {A(str(G.describe(nt, nv)))[:200]}' + tail,
                           dict(w, returned=None if err else G.describe(t, v2), smallest_failing_type=str(nt), smallest_failing_value=G.describe(nt, nv), path=[str(p) for p in path]))
         # ---- Oracle B
-        ctx.count('engine_layout_decodes')
-        bad = layout(t, v, b, ecounts)
+        ctx.count(pre + 'engine_layout_decodes')
+        bad = layout(t, v, b, counts)
         if bad:
             nt, nv, path = G.localise(t, v, ok_b)
             try:
@@ -338,10 +530,50 @@ def run(ctx):
                 nbad = layout(nt, nv, nb, {}) or bad
             except Exception as e:
                 nb, nbad = None, repr(e)
-            ctx.violation(kind_key('layout', nt, nv, 'mismatch'),
+            ctx.violation(key_of('layout', nt, nv, 'mismatch', ok_b),
                           f'engine layout for {A(str(nt))[:120]}: {nbad}; value {A(str(G.describe(nt, nv)))[:200]} bytes {nb.hex()[:120] if nb is not None else None}',
                           dict(w, smallest_failing_type=str(nt), smallest_failing_value=G.describe(nt, nv), smallest_failing_bytes=nb, path=[str(p) for p in path], why=nbad))
-        ctx.case(sample={'type': A(str(t))[:200], 'bytes': b[:64]}, key=(G.type_shape(t), b), nontrivial=G.type_depth(t) > 0)
+        ctx.case(sample={'type': A(str(t))[:200], 'bytes': b[:64]}, key=(G.type_shape(t), b) + tuple(key_extra), nontrivial=G.type_depth(t) > 0)
+
+    N = ctx.pick(7_000, 25_000)
+    stats = {}
+    for i, rng in ctx.cases(N, 'main'):
+        t = G.gen_type(rng, depth=rng.choice([0, 1, 2, 2, 3, 3, 4]), mode='value')
+        v = G.gen_value(rng, t, missing_ok=False, stats=stats)
+        w = {'type': str(t), 'type_ascii': A(str(t)), 'value': G.describe(t, v)}
+        examine(i, t, v, w, ecounts, '')
+
+    # ---- phase keyorder: every struct node re-keyed in an order that is not the type's
+    M = ctx.pick(3_000, 8_000)
+    kstats = {}
+
+    def knote(k):
+        kstats[k] = kstats.get(k, 0) + 1
+
+    for i, rng in ctx.cases(M, 'keyorder'):
+        t, where = gen_keyorder_type(rng, G)
+        v0 = G.gen_value(rng, t, missing_ok=False)
+        sig = []
+        before = kstats.get('structs_rekeyed', 0)
+        v = rekey(rng, G, t, v0, note=knote, sig=sig)
+        if kstats.get('structs_rekeyed', 0) == before:
+            knote('nothing_rekeyed')  # e.g. an empty array of structs: still a valid case, but not of this class
+        else:
+            knote('cases_with_rekeyed_struct')
+            knote('in_' + where)
+        # what hl.literal(v, t) does before it encodes (HailType.typecheck = _traverse + _typecheck_one_level): fields are checked
+        # by name, key order is not its business.  Only a value the front end refuses BECAUSE of its key order is not an input.
+        if accepts(t, v):
+            knote('frontend_typecheck_accepts')
+        elif accepts(t, v0):
+            knote('frontend_typecheck_rejects_key_order')
+            continue
+        else:
+            knote('frontend_typecheck_rejects_either_order')
+        w = {'type': str(t), 'type_ascii': A(str(t)), 'value': G.describe(t, v), 'context': where, 'permutations': [list(x) for x in sig]}
+        examine(i, t, v, w, {}, 'keyorder_', key_extra=(tuple(sig),), keyorder=True)
+    for k, n in kstats.items():
+        ctx.count(f'keyorder[{k}]', n)
     for k, n in stats.items():
         ctx.count(f'saw[{k}]', n)
     for k, n in ecounts.items():
